@@ -57,11 +57,12 @@ def candidates(files):
 
 def main():
     a = sys.argv[1:]
-    mx, seed, files = 150, 1, list(FILE_CHECKS)
+    mx, seed, files, skip = 150, 1, list(FILE_CHECKS), 0
     i = 0
     while i < len(a):
         if a[i] == "--max": mx = int(a[i + 1]); i += 2
         elif a[i] == "--seed": seed = int(a[i + 1]); i += 2
+        elif a[i] == "--skip": skip = int(a[i + 1]); i += 2
         elif a[i] == "--files": files = ["src/" + x if not x.startswith("src/") else x for x in a[i + 1].split(",")]; i += 2
         else: print(__doc__); return 2
     cands = candidates(files)
@@ -76,9 +77,12 @@ def main():
             break
     print("candidates:", len(cands), "sampled:", len(chosen), flush=True)
     mc.setup()
-    res = []
+    out_path = os.path.join(mc.ROOT, "mutants", "AUTOMUT.json")
+    res = json.load(open(out_path))[:skip] if skip and os.path.exists(out_path) else []
     try:
         for n, (f, ln, old, new, pat) in enumerate(chosen):
+            if n < skip:
+                continue
             mc.reset()
             p = os.path.join(mc.REPO, f)
             lines = open(p).read().split("\n")
@@ -108,7 +112,7 @@ def main():
                             break
             res.append(rec)
             print(n, f, ln + 1, rec["status"], "|", rec["new"][:90], flush=True)
-            json.dump(res, open(os.path.join(mc.ROOT, "mutants", "AUTOMUT.json"), "w"), indent=1)
+            json.dump(res, open(out_path, "w"), indent=1)
     finally:
         mc.teardown()
     surv = [r for r in res if r["status"] == "SURVIVED"]
